@@ -198,6 +198,11 @@ func runPolicyPath(id, naddr int, policy string, steps []BStep) PolicyResult {
 		case "Pick":
 			l := sel[s.S]
 			if l == nil {
+				if !res.Conform {
+					// the real code left the model's path earlier (its usable list was empty where the
+					// model's was not): the rest of this path cannot be followed
+					return res
+				}
 				res.Err = fmt.Sprintf("step %d: selector %s has nothing loaded", i, s.S)
 				return res
 			}
